@@ -109,7 +109,8 @@ _uid = itertools.count()
 def st_case(draw):
     gen = draw(st.sampled_from(["loader", "dumper", "converter", "impl_converter"]))
     # a plain class has no output shape (fields cannot be read back): only the loader generator applies to it
-    kind = draw(st.sampled_from(["dataclass", "typeddict", "plain"])) if gen == "loader" else \
+    kind = draw(st.sampled_from(["dataclass", "typeddict", "plain", "attrs"])) if gen == "loader" else \
+        draw(st.sampled_from(["dataclass", "typeddict", "attrs"])) if gen == "dumper" else \
         draw(st.sampled_from(["dataclass", "typeddict"]))
     n = draw(st.integers(1, 5))
     # NFKC-sensitive TypedDict keys hit an open known finding (see known_findings.json): excluded by construction for
@@ -122,6 +123,10 @@ def st_case(draw):
         f = {"id": fid, "opt": draw(st.integers(0, 3)) == 0}
         if f["opt"]:
             f["default"] = draw(st.sampled_from(sorted(PARAM_DEFAULTS)))
+            if kind == "attrs" and draw(st.integers(0, 2)) == 0:
+                # the one kind of default a loader cannot apply itself: the field travels to the constructor in a dict of keyword
+                # arguments, keyed by the PARAMETER name -- which attrs derives from the field id (leading underscores stripped)
+                f["default"] = "takes_self"
         r = draw(st.integers(0, 5))
         if r <= 2:
             f["key"] = draw(st.one_of(st.sampled_from(HOSTILE_KEYS), st.text(max_size=6)))
@@ -217,6 +222,17 @@ def build_model(case, suffix="", extra=()):
             else:
                 spec.append((f["id"], typing.Any))
         cls = dataclasses.make_dataclass(name, spec)
+    elif kind == "attrs":
+        import attr  # noqa: PLC0415
+        attribs = {fid: attr.ib(type=ann) for fid, ann in extra}
+        for f in sorted(fields, key=lambda f: f["opt"]):
+            if not f["opt"]:
+                attribs[f["id"]] = attr.ib(type=typing.Any)
+            elif f["default"] == "takes_self":
+                attribs[f["id"]] = attr.ib(type=typing.Any, default=attr.Factory(lambda self: ("made from", type(self).__name__), takes_self=True))
+            else:
+                attribs[f["id"]] = attr.ib(type=typing.Any, default=PARAM_DEFAULTS[f["default"]]() if f["default"] != "list" else None)
+        cls = attr.make_class(name, attribs)
     elif kind == "typeddict":
         cls = typing.TypedDict(name, {**{f["id"]: (typing.NotRequired[typing.Any] if f["opt"] else typing.Any) for f in fields},  # type: ignore[misc]
                                       **dict(extra)})
@@ -321,7 +337,7 @@ def check_case(ctx: runner.Ctx, case):  # noqa: C901, PLR0912, PLR0915
     values = {f["id"]: ("val", f["id"], object()) for f in fields}
 
     def make_obj(klass, only_required=False):
-        kw = {f["id"]: values[f["id"]] for f in fields if not (only_required and f["opt"])}
+        kw = {(f["id"].lstrip("_") if kind == "attrs" else f["id"]): values[f["id"]] for f in fields if not (only_required and f["opt"])}
         return klass(**kw)
 
     def get(obj, fid):
